@@ -52,6 +52,9 @@ EDGE = [
     "select a from int1.t1 where a in (1, (select max(a) from int1.u1))", "select a from int1.t1 where a not in (0, int1.t1.b, 3)",
     "select a from int1.t1 where b in (1, 2) and a in (2, (select min(b) from int1.u1 where int1.u1.c in (1, int1.u1.a)))",
     "select coalesce(int1.t1.a, int1.t1.b, 0) as x from int1.t1 where coalesce(1, int1.t1.c) = 1",
+    # column and table names that need quoting (dots, blanks, keywords): the name-keeping alias is that one name
+    "select int1.t1.`price.usd`, a from int1.t1", "select `a.b`, `c d`, `select` from int1.t1 where `a.b` > 1", "select t1.`x.y.z` from int1.t1 order by t1.`x.y.z`",
+    "select `p.q` from int1.`t.1` where `p.q` = 1", "select int1.`t.1`.`p.q`, int1.`t.1`.a from int1.`t.1`",
     # tables of the integration whose schema.table reads like a model / view / project of the catalog (proj.pred, proj.pred2, proj.v1)
     "select a, b from int1.proj.pred where a > 1", "select * from int1.proj.pred where a = 1", "select * from int1.proj.pred2",
     "select a from int1.proj.pred union select a from int1.t1", "select a from int1.t1 where a in (select a from int1.proj.pred where b > 0)",
